@@ -63,6 +63,21 @@ LeafTwin = type('Leaf', (Other,), {})
 
 
 
+class Bucket(type):
+    """a metaclass that hashes all its classes alike (and all sets of them with it): equal
+    hashes are no reason to confuse two different sets of types"""
+    def __hash__(cls):
+        return 7
+
+
+class DiskFull(Exception, metaclass=Bucket):
+    pass
+
+
+class DiskGone(Exception, metaclass=Bucket):
+    pass
+
+
 class MetaLeaf(Mid, metaclass=abc.ABCMeta):
     """an exception class whose metaclass is not plain `type` (e.g. one that mixes in an ABC)"""
 
@@ -413,6 +428,22 @@ def run_case(case):
         violations.append({'mechanism': 'c17:specialisation-not-identical',
                            'msg': 'the type of %s built inside a simulation differs from the one '
                                   'built outside' % raised_text})
+    # ---- different sets of types are different specialisations even if they hash alike ----
+    if case['index'] % 40 == 1:
+        full, gone = Concurrent(DiskFull()), Concurrent(DiskGone())
+        both = Concurrent(DiskFull(), DiskGone())
+        answers = (type(full) is not type(gone), type(full) is Concurrent[DiskFull],
+                   type(gone) is Concurrent[DiskGone], isinstance(full, Concurrent[DiskFull]),
+                   not isinstance(gone, Concurrent[DiskFull]),
+                   not isinstance(full, Concurrent[DiskGone]),
+                   isinstance(both, Concurrent[DiskFull, DiskGone]),
+                   not isinstance(both, Concurrent[DiskFull]),
+                   type(gone).specialisations == (DiskGone,))
+        stats['type_identity_checks'] += len(answers)
+        if not all(answers):
+            violations.append({'mechanism': 'c17:specialisation-not-identical',
+                               'msg': 'two exception classes whose hashes collide (metaclass '
+                                      '__hash__) are confused: checks %s' % (answers,)})
     # keep one violation per mechanism per case (the space is large)
     seen = {}
     for vio in violations:
